@@ -1,6 +1,7 @@
 """C10 - constraints are contained in a single returned route (decided part); ignore /
 scale-0 / additional start-end relations are monitored on the same runs."""
 import copy
+import json
 import random
 
 from props import c01 as base
@@ -26,6 +27,10 @@ ASSUMPTIONS = base.ASSUMPTIONS + ["coverage comparison with 1e-9 slack", "in nod
 TAG = "c10"
 
 
+# witness of the listed known finding C10.ignored_element_has_influence (repetition bound taken from an ignored edge)
+PINNED = [json.loads('''{"world": {"args": {"additional_ends": ["a.0"], "additional_starts": ["a.0"], "elements_to_ignore": [["a", "A"]], "k": 2, "optimization_options": {}, "solver_options": {}, "weight_type": "float"}, "class": "kMinPathErrorCycles", "graph": {"edges": [["c", "a.0", 0.20999999999999996], ["a.0", "c", 2.21], ["A", "c", 3.21], ["a", "A", 7.17], ["A", "n_1", 7.17], ["n_1", "source", 7.17], ["c", "A", 2.21]], "kind": "digraph", "nodes": ["c", "a.0", "A", "a", "n_1", "source"], "routes": [["a", "A", "n_1", "source"], ["a", "A", "n_1", "source"], ["a", "A", "c", "a.0", "c", "A", "n_1", "source"]], "weights": [2.811, 2.149, 2.21], "zero_flow_edges": []}}, "sim": {"faults": [], "latency": "instant", "reply": "canonical", "reply_seed": 458099575}, "monitor": true}''')]
+
+
 def gen_world(seed, tier):
     return mr.gen_world(seed, CLASSES, want_constraints=1.0, node_p=0.2, tag=TAG, length_cov_p=0.5)
 
@@ -38,6 +43,21 @@ def plans(world, info, seed, tier):
         sim = {"latency": "instant", "reply": pol, "reply_seed": rng.randrange(1 << 30), "faults": []}
         specs.append({"world": world, "sim": sim, "monitor": pol == "canonical"})
     return specs
+
+
+def _confirmed(world_a, world_b, relation):
+    """Solver-truthfulness cross-check (sim/crosscheck.py): re-solve both worlds under several native solver
+    configurations and evaluate ``relation(solved_a, best_a, solved_b, best_b)`` on the best objectives."""
+    from sim import crosscheck
+
+    def side(w):
+        def fn(cfg):
+            o, _, _ = mr.run(w, cfg, seed=1)
+            return (o["solved"], o.get("objective"), o.get("solve_exc") or o.get("construct_exc"))
+        return fn
+    sa, ba, _ = crosscheck.best_over_configs(side(world_a), {"latency": "instant"})
+    sb, bb, _ = crosscheck.best_over_configs(side(world_b), {"latency": "instant"})
+    return relation(sa, ba, sb, bb), [sa, ba, sb, bb]
 
 
 def _monitor(spec, out0):
@@ -62,8 +82,12 @@ def _monitor(spec, out0):
         counters["monitor:reweight_ignored"] = 1
         if not out2.get("construct_exc") and not out2.get("solve_exc"):
             if out2["solved"] != out0["solved"] or (out0["solved"] and not _close(out2.get("objective"), out0.get("objective"))):
-                vs.append(Violation(ID, "C10.ignored_element_has_influence", cname,
-                                    {"base": [out0["solved"], out0.get("objective")], "reweighted": [out2["solved"], out2.get("objective")]}))
+                bad, best = _confirmed(world, w2, lambda sa, ba, sb, bb: sa != sb or (sa and not _close(ba, bb)))
+                if bad:
+                    vs.append(Violation(ID, "C10.ignored_element_has_influence", cname,
+                                        {"base": [out0["solved"], out0.get("objective")], "reweighted": [out2["solved"], out2.get("objective")], "cross_check": best}))
+                else:
+                    counters["solver_not_truthful_discrepancy_dismissed"] = 1
     if not args.get("additional_starts") and not args.get("additional_ends") and cname in (
             "kMinPathError", "kLeastAbsErrors", "kPathCover", "kMinPathErrorCycles", "kLeastAbsErrorsCycles", "kPathCoverCycles") and len(g["nodes"]) >= 3:
         w2 = copy.deepcopy(world)
@@ -73,12 +97,16 @@ def _monitor(spec, out0):
         counters["monitor:extra_start_end"] = 1
         if not out2.get("construct_exc") and not out2.get("solve_exc"):
             if out0["solved"] and not out2["solved"]:
-                vs.append(Violation(ID, "C10.extra_start_end_lost_solution", cname, {"base_objective": out0.get("objective")}))
+                bad, best = _confirmed(world, w2, lambda sa, ba, sb, bb: sa and not sb)
+                if bad:
+                    vs.append(Violation(ID, "C10.extra_start_end_lost_solution", cname, {"base_objective": out0.get("objective"), "cross_check": best}))
             elif out0["solved"] and out2["solved"] and cname not in models.COVER_CLASSES:
                 try:
                     if float(out2["objective"]) > float(out0["objective"]) + 1e-6 * max(1.0, abs(float(out0["objective"]))):
-                        vs.append(Violation(ID, "C10.extra_start_end_worse_objective", cname,
-                                            {"base": out0.get("objective"), "with_extra": out2.get("objective")}))
+                        bad, best = _confirmed(world, w2, lambda sa, ba, sb, bb: sa and sb and bb > ba + 1e-6 * max(1.0, abs(ba)))
+                        if bad:
+                            vs.append(Violation(ID, "C10.extra_start_end_worse_objective", cname,
+                                                {"base": out0.get("objective"), "with_extra": out2.get("objective"), "cross_check": best}))
                 except Exception:
                     pass
     cons_key = "subpath_constraints" if cname in models.DAG_CLASSES else "subset_constraints"
@@ -92,12 +120,16 @@ def _monitor(spec, out0):
         counters["monitor:without_constraints"] = 1
         if not out2.get("construct_exc") and not out2.get("solve_exc"):
             if out0["solved"] and not out2["solved"]:
-                vs.append(Violation(ID, "C10.solved_only_with_constraints", cname, {"objective_with": out0.get("objective")}))
+                bad, best = _confirmed(world, w2, lambda sa, ba, sb, bb: sa and not sb)
+                if bad:
+                    vs.append(Violation(ID, "C10.solved_only_with_constraints", cname, {"objective_with": out0.get("objective"), "cross_check": best}))
             elif out0["solved"] and out2["solved"]:
                 try:
                     if float(out0["objective"]) < float(out2["objective"]) - 1e-6 * max(1.0, abs(float(out2["objective"]))):
-                        vs.append(Violation(ID, "C10.better_objective_with_constraints", cname,
-                                            {"with": out0.get("objective"), "without": out2.get("objective")}))
+                        bad, best = _confirmed(world, w2, lambda sa, ba, sb, bb: sa and sb and ba < bb - 1e-6 * max(1.0, abs(bb)))
+                        if bad:
+                            vs.append(Violation(ID, "C10.better_objective_with_constraints", cname,
+                                                {"with": out0.get("objective"), "without": out2.get("objective"), "cross_check": best}))
                 except Exception:
                     pass
         # the optimum is over exactly the solutions satisfying the constraints: the optional safety
@@ -110,9 +142,13 @@ def _monitor(spec, out0):
             counters["monitor:safety_off"] = 1
             if not out3.get("construct_exc") and not out3.get("solve_exc"):
                 if out3["solved"] != out0["solved"] or (out0["solved"] and not _close(out3.get("objective"), out0.get("objective"))):
-                    vs.append(Violation(ID, "C10.optimum_differs_from_unoptimised_model", cname,
-                                        {"with_options": [out0["solved"], out0.get("objective")], "all_optimisations_off": [out3["solved"], out3.get("objective")],
-                                         "options": args.get("optimization_options")}))
+                    bad, best = _confirmed(world, w3, lambda sa, ba, sb, bb: sa != sb or (sa and not _close(ba, bb)))
+                    if bad:
+                        vs.append(Violation(ID, "C10.optimum_differs_from_unoptimised_model", cname,
+                                            {"with_options": [out0["solved"], out0.get("objective")], "all_optimisations_off": [out3["solved"], out3.get("objective")],
+                                             "options": args.get("optimization_options"), "cross_check": best}))
+                    else:
+                        counters["solver_not_truthful_discrepancy_dismissed"] = 1
     return vs, counters
 
 
@@ -123,8 +159,30 @@ def _close(a, b):
         return a == b
 
 
+def oracle_base_requirement(world, out, pid=ID):
+    """With constraints, a cover model still has to return a cover: the constraints select among
+    the solutions of the problem, they do not change the problem."""
+    from sim import ref
+    vs = []
+    if not out["solved"] or world["class"] not in models.COVER_CLASSES or mr._node_mode(world):
+        return vs
+    args = world["args"]
+    if not (args.get("subpath_constraints") or args.get("subset_constraints")):
+        return vs
+    key, routes = mr.routes_of(world, out["raw_solution"])
+    covered = set()
+    for r in routes or []:
+        covered.update(zip(r[:-1], r[1:]))
+    ign = {tuple(e) for e in (args.get("elements_to_ignore") or [])}
+    for u, v, _ in world["graph"]["edges"]:
+        if (u, v) not in ign and (u, v) not in covered:
+            vs.append(Violation(pid, pid + ".constrained_cover_misses_edge", world["class"], {"edge": [u, v], "routes": routes}))
+            break
+    return vs
+
+
 def execute(spec):
-    res = base.execute(spec, oracles=[mr.oracle_c10], pid=ID)
+    res = base.execute(spec, oracles=[mr.oracle_c10, oracle_base_requirement], pid=ID)
     if spec.get("monitor") and "violations" in res:
         try:
             out0, _, _ = mr.run(spec["world"], spec["sim"], seed=1)
